@@ -244,6 +244,14 @@ def execute(ctx, binary, scenarios, tag, par=16):
     return out
 
 
+def execute_reduced(ctx, binary, scenarios, tag, par=16):
+    traces = execute(ctx, binary, scenarios, tag, par)
+    for i, sc in enumerate(scenarios):
+        if sc["steps"] and sc["steps"][0]["op"] == "arbiter":
+            traces[i] = reduce_rounds(traces[i])[0]
+    return traces
+
+
 def witness_of(hist, at, invariant):
     e = hist[at]
     before = hist[:at]
@@ -321,8 +329,8 @@ def judge(ctx, traces, tag):
                 break
             r = rej[0]
             # locate the rejected history among the remaining ones
-            k = next(i for i in remaining if traces[i] is not None and traces[i][0] is r["hist"][0] or traces[i] == r["hist"])
-            out[k] = (r["at"], r["invariant"])
+            k, off = next((i, j) for i in remaining for j, e in enumerate(traces[i]) if e is r["hist"][0])   # a recording may hold
+            out[k] = (off + r["at"], r["invariant"])                                                       # several histories
             remaining.remove(k)
             if rounds > 40:
                 raise Broken("more than 40 rejected recordings in %s" % tag)
@@ -375,7 +383,7 @@ def report(ctx, binary, rejected):
             return
         reps = 1 if rnd == 0 else (5 if rnd < 3 else 9)          # 1 + 5 + 5 + 9 = 20 attempts
         batch = [x[1] for x in todo for _ in range(reps)]
-        traces = execute(ctx, binary, batch, "repro%d" % rnd, par=32)
+        traces = execute_reduced(ctx, binary, batch, "repro%d" % rnd, par=32)
         verdicts = judge(ctx, traces, "repro%d" % rnd)
         left = []
         for i, x in enumerate(todo):
@@ -524,6 +532,35 @@ def overlap_scenario(rng, k):
             "steps": steps}
 
 
+def arbiter_scenario(k, pairing, rounds, procs=0):
+    """the arbitration primitive of the real Request object (StartProcessing / SetProcessed* / Wait) hit by two parties
+    at the same instant, `rounds` times: the loop's admission vs the watcher's expiry, the drain vs the watcher's expiry."""
+    c = {"ttl_s": 1, "queue_size": 1, "qmax": 1, "qwin_s": 1, "slack_ms": SLACK_MS}
+    if procs:
+        c["gomaxprocs"] = procs
+    return {"name": "arbiter-%s-%d" % (pairing, k), "config": c, "steps": [{"op": "arbiter", "ms": rounds, "point": pairing}]}
+
+
+def reduce_rounds(trace):
+    """an arbiter recording holds thousands of one-request histories; identical histories (same events, same stamps) get
+    the same judgement, so each distinct one is handed to TLC once (bookkeeping: multiplicities are counted)."""
+    rounds, cur = [], None
+    for e in trace:
+        if e["ev"] == "reset":
+            cur = [e]
+            rounds.append(cur)
+        elif cur is not None:
+            cur.append(e)
+    seen, out = {}, []
+    for r in rounds:
+        key = json.dumps(r, sort_keys=True)
+        if key not in seen:
+            seen[key] = 0
+            out += r
+        seen[key] += 1
+    return out, len(rounds), len(seen)
+
+
 def refill_scenario(rng, k):
     """a history, not a single burst: some requests end by TTL expiry while the quota is exhausted, then more requests
     than the queue holds arrive at once - the size clause is judged after the slots were given back (free-running)."""
@@ -638,12 +675,23 @@ def run(ctx):
     for k in range(3 if not T else 9):
         scs.append(refill_scenario(ctx.rng, k))
         names.append("refill-%d" % k)
+    arb_rounds = 20000 if not T else 100000
+    for k, (pairing, procs) in enumerate([("loop-watcher", 0), ("drain-watcher", 0), ("loop-watcher", 4), ("drain-watcher", 2)]):
+        scs.append(arbiter_scenario(k, pairing, arb_rounds, procs))
+        names.append(scs[-1]["name"])
     # ---- (4) code -> spec: free-running recordings
     nr = 30 if not T else 400
     for k in range(nr):
         scs.append(random_scenario(ctx.rng, k, T))
         names.append("random-%d" % k)
     traces = execute(ctx, binary, scs, "all", par=32)
+    narb = 0
+    for i, n in enumerate(names):
+        if n.startswith("arbiter"):
+            traces[i], total, distinct = reduce_rounds(traces[i])
+            narb += total
+            ctx.cov["evaluations"] += total
+    ctx.notes.append("arbiter rounds on the real Request object (two parties released at the same instant): %d" % narb)
     verdicts = judge(ctx, traces, "all")
     account(ctx, traces, verdicts, seen)
 
@@ -723,7 +771,7 @@ def replay(ctx, path):
     want = obj["witness"]["class"]
     gated = any(st["op"] == "hold" for st in sc["steps"])
     for a in range(3 if gated else 20):
-        t = execute(ctx, binary, [sc], "replay", par=1)[0]
+        t = execute_reduced(ctx, binary, [sc], "replay", par=1)[0]
         v = judge(ctx, [t], "replay%d" % a)[0]
         if v is not None:
             for e in t:
